@@ -127,9 +127,9 @@ class Group:
             other:  other group for coupling
         """
         # do the coupling
-        if other not in self.covalently_coupled_groups:
+        if not any(other is g for g in self.covalently_coupled_groups):
             self.covalently_coupled_groups.append(other)
-        if self not in other.covalently_coupled_groups:
+        if not any(self is g for g in other.covalently_coupled_groups):
             other.covalently_coupled_groups.append(self)
 
     def couple_non_covalently(self, other: "Group") -> None:
@@ -139,9 +139,9 @@ class Group:
             other:  other group for coupling
         """
         # do the coupling
-        if other not in self.non_covalently_coupled_groups:
+        if not any(other is g for g in self.non_covalently_coupled_groups):
             self.non_covalently_coupled_groups.append(other)
-        if self not in other.non_covalently_coupled_groups:
+        if not any(self is g for g in other.non_covalently_coupled_groups):
             other.non_covalently_coupled_groups.append(self)
 
     def get_covalently_coupled_groups(self):
